@@ -9,6 +9,20 @@ import NanoVerif.Model.Parameter
     register_parameter (30-36): `critical(parameter_if(name))` then `emplace_back`  → `Config.register`
     parameter(name) (38-46), parameter_if(name) (48-56)        → `Config.applyAt`, `Config.has`
     config(name, value, …) (configurable.h:95-100)             → `Config.applyAt` with an assignment
+
+  Objects that OWN other configurable objects — configuration trees:
+    solver_t   (include/nano/solver.h:137-139  m_lsearch0, m_lsearchk)                 → kids `lsearch0`, `lsearchk`
+    ml::params_t (include/nano/machine/params.h:97-100  m_tuner, m_solver, m_splitter) → kids `tuner`, `solver`, `splitter`
+    gboost_model_t (include/nano/gboost/model.h:110  m_prototypes)                     → kids `proto0`, `proto1`, …
+    every other object of the factories                                                → no kids
+    solver_t::solver_t(const solver_t&) (src/solver.cpp:49-57: configurable_t(other), lsearch0().clone(),
+      lsearchk().clone()), params_t::params_t(const params_t&) / operator= (src/machine/params.cpp:21-41),
+      gboost_model_t copy constructor / operator= (src/gboost/model.cpp:233-251: learner_t(other),
+      wlearner::clone(m_prototypes)), the `clone()` overrides (`std::make_unique<T>(*this)`)     → `Tree.clone`
+    solver_t::lsearch0/lsearchk(const T&) (src/solver.cpp:67-83), params_t::tuner/solver/splitter(const T&)
+      (params.cpp:45-113): the owner stores `object.clone()`                           → `Tree.setChild … (clone …)`
+    the same setters taking an id: `factory.get(id)`, `critical` when the id is unknown → `OOp.instid`
+    gboost_model_t::prototypes(const rwlearners_t&) (model.cpp:255-263)                → `OOp.protos`
 -/
 namespace NanoVerif.Param
 
@@ -54,5 +68,233 @@ def applyAt (c : Config α) (name : String) (op : Op α) : Config α × Res α :
   | some s => (⟨setFirst name (step s op).1 c.params⟩, (step s op).2)
 
 end Config
+
+/-! ### objects that own other objects -/
+
+/-- the configuration of an object: the id it reports, its registered parameters, the objects it owns -/
+inductive Tree (α : Type) where
+  | node (typeId : String) (params : List (String × Storage α)) (kids : List (String × Tree α))
+deriving Repr
+
+namespace Tree
+variable {α : Type}
+
+def typeId : Tree α → String
+  | node ty _ _ => ty
+
+def params : Tree α → List (String × Storage α)
+  | node _ ps _ => ps
+
+def kids : Tree α → List (String × Tree α)
+  | node _ _ ks => ks
+
+/-- the `configurable_t` base of the object -/
+def config (t : Tree α) : Config α := ⟨t.params⟩
+
+/-- the first owned object called `c` -/
+def findKid (c : String) : List (String × Tree α) → Option (Tree α)
+  | [] => none
+  | k :: ks => if k.1 == c then some k.2 else findKid c ks
+
+/-- the accessor of an owned object (`solver.lsearchk()`, `params.solver()`, `model.prototypes()[j]`) -/
+def child? (t : Tree α) (c : String) : Option (Tree α) := findKid c t.kids
+
+def replaceKid (c : String) (s : Tree α) : List (String × Tree α) → List (String × Tree α)
+  | [] => []
+  | k :: ks => if k.1 == c then (k.1, s) :: ks else k :: replaceKid c s ks
+
+/-- the owned object called `c` is replaced (`m_lsearchk = …`); the parameters and the other owned objects stay -/
+def setChild (t : Tree α) (c : String) (s : Tree α) : Tree α :=
+  node t.typeId t.params (replaceKid c s t.kids)
+
+/-- the object reached by following the owned objects named by `path` -/
+def sub? (t : Tree α) : List String → Option (Tree α)
+  | [] => some t
+  | c :: path =>
+    match t.child? c with
+    | none => none
+    | some k => k.sub? path
+
+/-- the parameter `name` of the object at `path` -/
+def param? (t : Tree α) (path : List String) (name : String) : Option (Storage α) :=
+  match t.sub? path with
+  | none => none
+  | some n => n.config.find? name
+
+/-- the type id of the object at `path` -/
+def typeAt? (t : Tree α) (path : List String) : Option String := (t.sub? path).map typeId
+
+mutual
+/-- the copy constructors / `clone()`: the type id and the registered parameters are copied, every owned object is
+    cloned in turn (a deep copy) -/
+def clone : Tree α → Tree α
+  | node ty ps ks => node ty ps (cloneKids ks)
+def cloneKids : List (String × Tree α) → List (String × Tree α)
+  | [] => []
+  | k :: ks => (k.1, clone k.2) :: cloneKids ks
+end
+
+mutual
+/-- does `p` hold for every parameter of every object of the tree? -/
+def allB (p : Storage α → Bool) : Tree α → Bool
+  | node _ ps ks => ps.all (fun q => p q.2) && allKidsB p ks
+def allKidsB (p : Storage α → Bool) : List (String × Tree α) → Bool
+  | [] => true
+  | k :: ks => allB p k.2 && allKidsB p ks
+end
+
+/-- every parameter of every object of the tree is inside its declared domain -/
+def InDomain [LT α] [LE α] [IsFinite α] (t : Tree α) : Prop :=
+  ∀ path name s, t.param? path name = some s → s.InDomain
+
+variable [LT α] [LE α] [DecidableLT α] [DecidableLE α] [FOps α]
+
+/-- an operation on the parameter `name` of the object at `path`; a path or a name that does not exist throws
+    before anything else happens -/
+def setParam (t : Tree α) : List String → String → Op α → Tree α × Res α
+  | [], name, op =>
+    let r := t.config.applyAt name op
+    (node t.typeId r.1.params t.kids, r.2)
+  | c :: path, name, op =>
+    match t.child? c with
+    | none => (t, .throw .critical)
+    | some k =>
+      let r := k.setParam path name op
+      (t.setChild c r.1, r.2)
+
+end Tree
+
+/-! ### histories over variables holding such objects (what the harness family `owner` executes) -/
+
+/-- one entry of a factory: the id it is registered under, what the object reports, its registered parameters and the
+    objects it owns as (child, factory, id) -/
+structure FactoryEntry (α : Type) where
+  factory : String
+  id : String
+  typeId : String
+  params : List (String × Storage α)
+  kids : List (String × String × String) := []
+
+/-- `factory.get(id)` as a configuration tree: the owned objects are what their factories hand out
+    (src/solver.cpp:40-41 `lsearch0("quadratic"); lsearchk("cgdescent")` and the overrides in the solvers) -/
+def resolve {α : Type} (table : List (FactoryEntry α)) : Nat → String → String → Option (Tree α)
+  | 0, _, _ => none
+  | fuel + 1, f, id =>
+    match table.find? (fun e => e.factory == f && e.id == id) with
+    | none => none
+    | some e =>
+      match e.kids.mapM (fun k => (resolve table fuel k.2.1 k.2.2).map (fun t => (k.1, t))) with
+      | none => none
+      | some ks => some (.node e.typeId e.params ks)
+
+/-- what an owned object is: `solver.lsearch0()` is a `lsearch0_t`, …, `model.prototypes()[j]` a `wlearner_t` -/
+def childKind (kind child : String) : Option String :=
+  if kind == "solver" && (child == "lsearch0" || child == "lsearchk") then some child
+  else if kind == "params" && (child == "tuner" || child == "solver" || child == "splitter") then some child
+  else if kind == "gboost" && (List.range 64).any (fun j => child == s!"proto{j}") then some "wlearner"
+  else none
+
+inductive OOp (α : Type) where
+  | new (kind id : String)
+  | set (v : Nat) (name : String) (op : Op α)
+  | inst (d : Nat) (child : String) (s : Nat)
+  | instid (d : Nat) (child : String) (id : String)
+  | protos (v : Nat) (srcs : List Nat)
+  | ext (v : Nat) (child : String)
+  | clone (v : Nat)
+  | assign (d s : Nat)
+  | probe (a b : Nat)
+
+inductive OAns (α : Type) where
+  | ok
+  | missing
+  | res (r : Res α)
+  | throw (e : Err)
+  | probe
+  /-- the operation is ill-typed (no such variable, an object of the wrong kind, no such owned object) -/
+  | bad
+
+/-- the variables: what kind of object each holds and its configuration -/
+abbrev Env (α : Type) := List (String × Tree α)
+
+/-- the variable an operation is applied to (the only one it may change) -/
+def OOp.target {α : Type} : OOp α → Option Nat
+  | .set v _ _ => some v
+  | .inst d _ _ => some d
+  | .instid d _ _ => some d
+  | .protos v _ => some v
+  | .assign d _ => some d
+  | _ => none
+
+section
+variable {α : Type} [LT α] [LE α] [DecidableLT α] [DecidableLE α] [FOps α]
+
+/-- the prototypes handed to `gboost_model_t::prototypes`: clones of the weak learners held by the variables -/
+def protoKids (env : Env α) : Nat → List Nat → Option (List (String × Tree α))
+  | _, [] => some []
+  | j, s :: srcs =>
+    match env[s]?, protoKids env (j + 1) srcs with
+    | some (k, t), some rest => if k == "wlearner" then some ((s!"proto{j}", t.clone) :: rest) else none
+    | _, _ => none
+
+/-- one operation of an owner history: the variables afterwards and the answer. `lookup kind id` is what the
+    factory of `kind` hands out for `id` (default construction for the owners no factory knows). -/
+def ostep (lookup : String → String → Option (Tree α)) (env : Env α) : OOp α → Env α × OAns α
+  | .new kind id =>
+    match lookup kind id with
+    | none => (env, .missing)
+    | some t => (env ++ [(kind, t)], .ok)
+  | .set v name op =>
+    match env[v]? with
+    | none => (env, .bad)
+    | some (k, t) =>
+      let r := t.setParam [] name op
+      (env.set v (k, r.1), .res r.2)
+  | .inst d child s =>
+    match env[d]?, env[s]? with
+    | some (kd, td), some (ks, ts) =>
+      if childKind kd child == some ks && kd != "gboost" && (td.child? child).isSome then
+        (env.set d (kd, td.setChild child ts.clone), .ok)
+      else (env, .bad)
+    | _, _ => (env, .bad)
+  | .instid d child id =>
+    match env[d]? with
+    | some (kd, td) =>
+      match childKind kd child with
+      | some ck =>
+        if kd != "gboost" && (td.child? child).isSome then
+          match lookup ck id with
+          | none => (env, .throw .critical)
+          | some t => (env.set d (kd, td.setChild child t), .ok)
+        else (env, .bad)
+      | none => (env, .bad)
+    | none => (env, .bad)
+  | .protos v srcs =>
+    match env[v]?, protoKids env 0 srcs with
+    | some (k, t), some ks =>
+      if k == "gboost" then (env.set v (k, .node t.typeId t.params ks), .ok) else (env, .bad)
+    | _, _ => (env, .bad)
+  | .ext v child =>
+    match env[v]? with
+    | some (k, t) =>
+      match childKind k child, t.child? child with
+      | some ck, some c => (env ++ [(ck, c.clone)], .ok)
+      | _, _ => (env, .bad)
+    | none => (env, .bad)
+  | .clone v =>
+    match env[v]? with
+    | some (k, t) => (env ++ [(k, t.clone)], .ok)
+    | none => (env, .bad)
+  | .assign d s =>
+    match env[d]?, env[s]? with
+    | some (kd, _), some (ks, ts) =>
+      if kd == ks && (kd == "params" || kd == "gboost") then (env.set d (kd, ts.clone), .ok) else (env, .bad)
+    | _, _ => (env, .bad)
+  | .probe a b =>
+    match env[a]?, env[b]? with
+    | some (ka, _), some (kb, _) => if ka == kb then (env, .probe) else (env, .bad)
+    | _, _ => (env, .bad)
+
+end
 
 end NanoVerif.Param
